@@ -656,6 +656,110 @@ def check_zip_alignment(P, ctx):
     ctx.floor(rule, 1)
 
 
+def check_slice_clamp(P, ctx):
+    """Slice_Arg turns a start / stop argument into a position of the underlying iterable: counted from the end when negative,
+    limited to [0, n] on both sides (that is what its three statements say).  Evaluated with exact C conversions — the
+    comparison of a negative int64 with the size_t length is the point — for n = 0..4 and arguments -8..8 (and the int64 extremes)."""
+    from . import cint
+    rule = 'C11.slice-clamp'
+    fn = P.fn('Slice_Arg')
+    ctx.fn(fn)
+    bad = None
+    n_eval = 0
+    ARG, UNDERSCORE = 1001, 1002
+    vals = list(range(-8, 9)) + [-(1 << 63), (1 << 63) - 1, -(1 << 40), 1 << 40]
+    for part in (0, 1, 2):
+        for n in range(0, 5):
+            for a in vals + ['_']:
+                def call(nm, e, it, a=a):
+                    if nm == 'c_int':
+                        return a
+                    raise cint.NoEval('call %s' % nm)
+                it = cint.CInt(P, fn, atoms={('global', '_'): UNDERSCORE}, call=call)
+                r = it.run([part, n, UNDERSCORE if a == '_' else ARG])
+                n_eval += 1
+                if a == '_':
+                    want = (0, n, 1)[part]
+                elif part == 2:
+                    want = a
+                else:
+                    want = a + n if a < 0 else a
+                    want = min(max(want, 0), n)
+                if r[0] != 'ret' or r[1] != want:
+                    bad = 'Slice_Arg(part %d, length %d, argument %s) gives %s; position %s is meant%s' % (
+                        part, n, a, r[1] if r[0] == 'ret' else '%s (%s)' % (r[0], r[1]), want,
+                        ' (a negative value meets the unsigned length in a comparison)' if isinstance(a, int) and a < 0 else '')
+                    break
+            if bad:
+                break
+        if bad:
+            break
+    ctx.stats['paths'] += n_eval
+    ctx.check(bad is None, rule, 'Slice_Arg', site(fn),
+              'slice bounds are counted from the end when negative and limited to [0, length] on both sides (%d argument combinations evaluated)' % n_eval,
+              [bad] if bad else None)
+    ctx.floor(rule, 1)
+
+
+def check_slice_positions(P, ctx):
+    """Slice.iter_init / iter_last position the underlying iterable at the first / last position the slice selects
+    (range_spec(start, stop, step) over positions 0..L-1), or answer Terminal when it selects none.  Evaluated with the
+    underlying iterable abstracted to positions (iter_init = 0, iter_last = L-1, iter_next/iter_prev = +-1, Terminal = -1)."""
+    from . import cint
+    rule = 'C11.slice-ends'
+    S = ('param', 0)
+    RNG = ('arrow', S, 'range')
+    for m in ('iter_init', 'iter_last'):
+        fn = P.fn(P.slot('Slice', 'Iter', m))
+        ctx.fn(fn)
+        N = util.Norm(P, fn, expand_locals=True, inline=False)
+        bad = None
+        n_eval = 0
+        for L in range(0, 6):
+            for a in range(0, L + 1):
+                for b in range(0, L + 1):
+                    for c in (-3, -2, -1, 1, 2, 3):
+                        E = range_spec(a, b, c)
+
+                        def call(nm, e, it, L=L, E=E):
+                            if nm == 'len':
+                                return L
+                            if nm == 'Range_Len':
+                                return len(E)
+                            if nm == 'iter_init':
+                                return 0 if L > 0 else -1
+                            if nm == 'iter_last':
+                                return L - 1
+                            if nm in ('iter_next', 'iter_prev'):
+                                pz = it.ev(e[2][1])
+                                if pz < 0:
+                                    raise cint.NoEval('%s applied to Terminal' % nm)
+                                q = pz + (1 if nm == 'iter_next' else -1)
+                                return q if 0 <= q < L else -1
+                            raise cint.NoEval('call %s' % nm)
+                        atoms = {('arrow', RNG, 'start'): a, ('arrow', RNG, 'stop'): b, ('arrow', RNG, 'step'): c, ('global', 'Terminal'): -1}
+                        it = cint.CInt(P, fn, atoms=atoms, call=call, N=N)
+                        r = it.run([3001])
+                        n_eval += 1
+                        want = (E[0] if m == 'iter_init' else E[-1]) if E else -1
+                        if r[0] != 'ret' or r[1] != want:
+                            got = r[1] if r[0] == 'ret' else '%s: %s' % (r[0], r[1])
+                            bad = 'slice over %d items with start %d, stop %d, step %d selects positions %s: %s gives %s, expected %s' % (
+                                L, a, b, c, E, m, 'Terminal' if got == -1 else got, 'Terminal' if want == -1 else 'position %d' % want)
+                            break
+                    if bad:
+                        break
+                if bad:
+                    break
+            if bad:
+                break
+        ctx.stats['paths'] += n_eval
+        ctx.check(bad is None, rule, 'Slice.' + m, site(fn),
+                  '%s of a Slice lands on the %s selected position, or is Terminal for an empty selection (%d parameter points, lengths 0..5)' % (
+                      m, 'first' if m == 'iter_init' else 'last', n_eval), [bad] if bad else None)
+    ctx.floor(rule, 2)
+
+
 def run(ctx, load):
     P = load(UNITS, 'default', [WITNESS])
     ctx.stats['units'] = set(UNITS) | {'witness/macros.c'}
@@ -672,6 +776,8 @@ def run(ctx, load):
     check_cursor_scratch(P, ctx)
     check_range_arithmetic(P, ctx)
     check_zip_alignment(P, ctx)
+    check_slice_clamp(P, ctx)
+    check_slice_positions(P, ctx)
     from .rules_c04 import check_list_links
     before = len(ctx.obs)
     check_list_links(P, ctx)
